@@ -98,5 +98,6 @@ package transport
 // the transport as seen by the channel (a net.Conn plus Writev/Flush): calls are atomic points
 //@ property C01 C02 C05 C06 C07 C09 C10 C11 C18
 //@ assume iface BuffersWriter.Writev
+//@   ensures implies(tclosed(recv), result1 != nil && result0 == 0)
 //@ assume iface Transport.Flush
 //@ assume iface Transport.RawTransport
